@@ -9,19 +9,19 @@ package nut13
 //@ func DeriveKeysetPath
 //@   tags C11 C19
 //@   safety C11
-//@   requires hexok(keysetId) ==> len(keysetId) == 16
+//@   requires @idlen [C11,C06] hexok(keysetId) ==> len(keysetId) == 16
 //@   ensures @path [C11] err == nil ==> r0 == hd.derive(hd.derive(hd.derive(master, 2147483648 + 129372), 2147483648 + 0), 2147483648 + be64(hexdec(keysetId)) % 2147483647)
 
 // m/.../counter'/1
 //@ func DeriveBlindingFactor
 //@   tags C11 C19
 //@   safety C11
-//@   requires counter < 2147483648
+//@   requires @hardened [C11] counter < 2147483648
 //@   ensures @r [C11] err == nil ==> r0 != nil && sc.of(r0.Key) == hd.privsc(hd.derive(hd.derive(keysetPath, 2147483648 + counter), 1))
 
 // m/.../counter'/0, hex of the private key
 //@ func DeriveSecret
 //@   tags C11 C19
 //@   safety C11
-//@   requires counter < 2147483648
+//@   requires @hardened [C11] counter < 2147483648
 //@   ensures @secret [C11] err == nil ==> r0 == hexenc(sc.ser(hd.privsc(hd.derive(hd.derive(keysetPath, 2147483648 + counter), 0))))
